@@ -572,7 +572,8 @@ pub fn protoedge(groups: &mut Vec<Group>) {
                 man("u32", Type::int(0, 4294967295)),
                 man("i32", Type::int(-2147483648, 2147483647)),
                 man("u64", Type::int_unconstrained()),
-                man("i64", Type::int(i64::MIN as i128 + 1, i64::MAX as i128)),
+                // the widest signed range inside the UPER profile (ub - lb <= 2^63 - 1); still an i64 / sint64
+                man("i64", Type::int(-(1i128 << 62), (1i128 << 62) - 1)),
                 man("b", Type::Boolean),
                 man("n", Type::Null),
                 man("bits", Type::BitString { size: Size::None, named: vec![] }),
@@ -629,7 +630,7 @@ pub fn protoedge(groups: &mut Vec<Group>) {
     ));
     m.push_def(def("Pe7", Type::SequenceOf { elem: Box::new(Type::CharString { cs: Charset::Utf8, size: Size::None }), size: Size::None }));
     m.push_def(def("Pe8", Type::int(-2147483648, 2147483647)));
-    m.push_def(def("Pe9", Type::Sequence(Comps { root: vec![man("big", Type::int(i64::MIN as i128 + 1, i64::MAX as i128)), man("s32", Type::int(-2147483648, 2147483647)), man("after", Type::int(0, 255))], ext: None })));
+    m.push_def(def("Pe9", Type::Sequence(Comps { root: vec![man("big", Type::int(-(1i128 << 62), (1i128 << 62) - 1)), man("s32", Type::int(-2147483648, 2147483647)), man("after", Type::int(0, 255))], ext: None })));
     groups.push(Group::new("protoedge", vec![m]));
 }
 
